@@ -18,8 +18,11 @@ EXIT_OK, EXIT_VIOLATION, EXIT_UNDECIDED, EXIT_ERROR = 0, 1, 2, 3
 
 def _worker(job):
     cid, idx, tier, seed, prop, trials = job
+    import logging
+
     from pyvc.run import run_instance
 
+    logging.disable(logging.CRITICAL)
     try:
         return run_instance(cid, idx, tier, seed=seed, prop=prop, native_trials=trials)
     except Exception:  # noqa: BLE001
